@@ -58,3 +58,14 @@ pub fn catch<T, F: FnOnce() -> T>(f: F) -> Result<T, String> {
         }
     })
 }
+
+/// TLC's JSON reader has no null: replace nulls by 0.
+pub fn denull(v: serde_json::Value) -> serde_json::Value {
+    use serde_json::Value;
+    match v {
+        Value::Null => Value::from(0),
+        Value::Array(a) => Value::Array(a.into_iter().map(denull).collect()),
+        Value::Object(o) => Value::Object(o.into_iter().map(|(k, v)| (k, denull(v))).collect()),
+        x => x,
+    }
+}
